@@ -131,6 +131,9 @@ func newPkg(pkg *packages.Package, u *Universe) Package {
 				}
 
 				if named != nil {
+					// the receiver of a method of a generic type is an instance (T[P]) of it
+					named = named.Origin()
+
 					p.methods[named] = append(p.methods[named], x)
 				}
 			} else {
@@ -335,7 +338,7 @@ func (p *pkgInfo) Functions() map[string]*types.Func {
 }
 
 func (p *pkgInfo) MethodsOf(n *types.Named, ptr bool) []*types.Func {
-	funcs, _ := p.methods[n]
+	funcs, _ := p.methods[n.Origin()]
 
 	if ptr {
 		return funcs
